@@ -54,8 +54,12 @@ def main():
     res['valid_seed'] = valid
     results = {}
     if valid:
-        assert run(['git', '-C', '/repo', 'status', '--porcelain'])[1].strip() == '', '/repo not clean'
-        assert run(['git', '-C', '/repo', 'apply', patch])[0] == 0
+        # the patched library lives in a side worktree (VERIF_REPO), /repo itself stays untouched
+        wt2 = tempfile.mkdtemp(prefix='seedrun-', dir='/tmp')
+        os.rmdir(wt2)
+        assert run(['git', '-C', '/repo', 'worktree', 'add', '--detach', wt2, 'HEAD'])[0] == 0
+        assert run(['git', 'apply', patch], cwd=wt2)[0] == 0
+        ENV['VERIF_REPO'] = wt2
         try:
             for c in checks:
                 t0 = time.time()
@@ -64,8 +68,8 @@ def main():
                 results[c] = {'rc': rc, 'verdict': {0: 'survived', 1: 'killed', 2: 'inconclusive'}.get(rc, f'rc={rc}'),
                               'wall_s': round(time.time() - t0, 1), 'first_violation': first[:400], 'tier': tier}
         finally:
-            run(['git', '-C', '/repo', 'checkout', '--', '.'])
-            run(['git', '-C', '/repo', 'clean', '-fdq'])
+            ENV.pop('VERIF_REPO', None)
+            run(['git', '-C', '/repo', 'worktree', 'remove', '--force', wt2])
             run(['git', 'checkout', '--', 'evidence'], cwd='/verif')
             shutil.rmtree('/verif/replay', ignore_errors=True)
     dst = f'/verif/seeded/{sid}'
